@@ -40,7 +40,7 @@ class TlcResult:
             self.violated = "Deadlock"
         if "The postcondition has failed" in out or "Postcondition" in out and "violated" in out:
             self.violated = self.violated or "POSTCONDITION"
-        for m in re.finditer(r"<(\w+) line \d+, col \d+ to line \d+, col \d+ of module \w+>: (\d+):(\d+)", out):
+        for m in re.finditer(r"<(\w+) line \d+, col \d+ to line \d+, col \d+ of module \w+[^>]*>: (\d+):(\d+)", out):
             name = m.group(1)
             d, t = int(m.group(2)), int(m.group(3))
             pd, pt = self.coverage.get(name, (0, 0))
